@@ -13,6 +13,7 @@ CONSTANTS
   NGroups <- MC_NGroupsNone
   MutOps <- MC_MutOpsTwo
   Renames <- MC_RenamesNone
+  Reinserts <- MC_ReinsertsNone
   AsFound_AliasWhenNoCutoff = FALSE
   AsFound_PopOnStore = FALSE
   AsFound_BaseCsvDropsT = FALSE
